@@ -15,7 +15,7 @@ class Constant(ASTNode):
 
     def get_string(self, *args, **kwargs):
         if isinstance(self.value, str) and self.with_quotes:
-            val = self.value.replace("'", "\\'")
+            val = self.value.replace('\\', '\\\\').replace("'", "\\'")
             out_str = f"\'{val}\'"
         elif isinstance(self.value, bool):
             out_str = 'TRUE' if self.value else 'FALSE'
